@@ -29,7 +29,10 @@ ArgsOk(r) ==
 
 \* ---- environment lookup ------------------------------------------------------------------
 AsRes(x) == IF x = S!Missing THEN [k |-> "missing"] ELSE [k |-> "ok", v |-> x[2]]
-VarUnixOk(r, l) == l.varu \in {AsRes(x) : x \in S!LookupAdmissible(r.kenv, l.key)}
+\* (a &UnixStr cannot hold a key with an embedded NUL: the probe then reports var_unix as "skipped")
+HasNul(k) == \E i \in 1..Len(k) : k[i] = 0
+VarUnixOk(r, l) == IF l.varu.k = "skipped" THEN HasNul(l.key)
+                   ELSE l.varu \in {AsRes(x) : x \in S!LookupAdmissible(r.kenv, l.key)}
 \* var additionally converts the value to &str: NotUnicode for a value that is not UTF-8
 VarOk(r, l) ==
     \E x \in S!LookupAdmissible(r.kenv, l.key) :
@@ -64,7 +67,8 @@ StackOk(r) ==
             rnd == S!Aux(r.st, 25)
             fnp == S!Aux(r.st, 31)
         IN /\ S!Args(r.st, r.heap) = r.args_os
-           /\ \A i \in 1..Len(r.look) : r.look[i].varu \in {AsRes(x) : x \in S!LookupAdmissible(envb, r.look[i].key)}
+           /\ \A i \in 1..Len(r.look) : r.look[i].varu.k # "skipped" =>
+                                              r.look[i].varu \in {AsRes(x) : x \in S!LookupAdmissible(envb, r.look[i].key)}
            /\ r.has_aux => /\ S!Aux(r.st, 11) = r.aux.uid /\ S!Aux(r.st, 13) = r.aux.gid
                            /\ rnd # 0 /\ SubSeq(r.heap, rnd, rnd + 15) = r.aux.random
                            /\ fnp # 0 /\ S!CStr(r.heap, fnp) = r.aux.execfn
